@@ -25,7 +25,7 @@ CLAIMED = {
         "diamond with default and bound value, nullary function, shared defaulted parameter, disconnected components, tuple leaf, renamed "
         "parameters, bound roots): for every output, every valid set of supplied names (roots, interior cuts, mixed; computed by an independent "
         "evaluator), every listing order and ALL integer values, the result equals the recursive composition (bound > keyword > upstream > "
-        "default), exactly the needed functions run once and dependencies first, full_output holds the intermediates, surplus keywords raise; "
+        "default), exactly the needed functions run once and dependencies first, full_output holds the intermediates (also when an intermediate is None / 0 / an empty container), surplus keywords raise; "
         "arg_combinations/root_args are compared with the semantic definition. One recorded finding is pinned.",
         "Trusted: z3, CrossHair path exhaustion and builtin models. Outside: > 5 functions, non-integer values, lazy (C18), cache (C09), scopes (C10).",
         "6 C02",
@@ -34,12 +34,12 @@ CLAIMED = {
     "C03": (
         "Bounded solver-based check with symbolic schedules: a controllable concurrent.futures.Executor (public executor= argument, one executor, "
         "default-dict, different executor per output) completes the submitted tasks in an order chosen by symbolic integers (all orders of up to 4 "
-        "pending tasks, first 4 choices; 6 in the thorough tier). For MAP-T templates with several tasks / functions per generation and dict, "
-        "file_array, dict_sub and per-output storage mixes: results, stored data and load_outputs equal the denotation for ALL integer inputs, "
+        "pending tasks, first 3-4 choices; 4-5 in the thorough tier). For MAP-T templates with several tasks / functions per generation and dict, "
+        "file_array, dict_sub and per-output storage mixes, with and without a run folder: results, stored data and load_outputs equal the denotation for ALL integer inputs, "
         "each function is invoked exactly once per index, and no function is invoked before all values it consumes are complete. map_async is "
         "driven through a real asyncio event loop with an executor whose tasks complete in a symbolic order.",
         "Trusted: z3, CrossHair path exhaustion and builtin models; token pickle. Tasks interleave at task granularity only (single thread). Outside: "
-        "real thread / process pools and OS scheduling, real shared_memory_dict.",
+        "real thread / process pools and OS scheduling (a storage that dumps inside a pool worker - seeded change C03_a3 - is not detected), real shared_memory_dict.",
         "6 C03",
         TECH,
     ),
@@ -60,7 +60,7 @@ CLAIMED = {
         "write / half written / created-but-empty). After the simulated death a freshly built pipeline resumes with cleanup=False: it must "
         "complete, equal the uninterrupted denotation for ALL integer inputs, not recompute elements whose files were complete, and recompute "
         "no more than the interrupted invocation explains. Templates T1, T5, T7, T8, T13 x file_array / dict+persist; two successive crashes "
-        "in the thorough tier; user-function failure at a symbolic call index followed by a re-run.",
+        "in the thorough tier; user-function failure at a symbolic call index followed by a re-run; stored results of functions without MapSpec (incl. None) are not recomputed either.",
         "Trusted: z3, CrossHair path exhaustion and builtin models; process death modelled as a BaseException at an intercepted FS event with torn "
         "buffers; rename atomic; token pickle on a real tmpfs. Outside: worker processes dying under parallel=True, fsync-level reordering.",
         "6 C05",
@@ -71,7 +71,7 @@ CLAIMED = {
         "into ints / negative ints / two slices / step-2 slices / negative-step slices, the parts are run with map(fixed_indices=..., cleanup=False) "
         "in given or reversed order; after each part exactly the selected elements are present in the run folder and equal the denotation for ALL "
         "integer inputs, at the end the stored data equal a full run, no element was computed twice and a final full run calls no user function. "
-        "Fixing a reduced axis, an unknown axis or an out-of-range index (symbolic) is rejected before any call. create_learners (with a symbolic "
+        "Fixing a reduced axis (every reduced axis of the template, incl. arrays reduced along different axes by different consumers), an unknown axis or an out-of-range index (symbolic) is rejected before any call. create_learners (with a symbolic "
         "split_independent_axes) executed by simple_run or generation-wise in two orders stores the same data.",
         "Trusted: z3, CrossHair path exhaustion and builtin models; token pickle; the adaptive package runs traced. Axis sizes (1..3, 2 for rank-3) and "
         "partition modes are case-split. Outside: adaptive.Runner with executors, to_slurm_run, create_learners_from_sweep, sizes > 4.",
@@ -94,7 +94,7 @@ CLAIMED = {
         "different values (hashed, hence 0..1), full_output symbolic - optionally with update_defaults / update_bound / replace applied to both "
         "twins in between; cache type lru / simple (hybrid, disk and every subset of cached functions in the thorough tier). Every call that "
         "succeeds uncached returns an equal value (and equal full_output) cached; a repeated equal call does not re-execute a cached function. "
-        "Pipeline.map with a cache on every function and repeated input values equals the denotation, twice.",
+        "Caches with max_size 1 (overflowing within one call) are included for values and exceptions. Pipeline.map with a cache on every function and repeated input values equals the denotation, twice.",
         "Trusted: z3, CrossHair path exhaustion and builtin models (incl. repair R9 of its dict union). Outside: shared (manager) caches, parallel "
         "shared-cache maps, lazy pipelines, histories longer than 2-3 calls.",
         "6 C09",
@@ -103,7 +103,7 @@ CLAIMED = {
     "C10": (
         "Bounded solver-based check that rewrites preserve what is computed: copy, cloudpickle round trip, join, |, update_renames, update_scope "
         "(dotted keys and nested dicts) and its removal, nest_funcs('*') and over every connected subset, simplified_pipeline, split_disconnected, "
-        "and compositions of two (three in the thorough tier) are applied to RUN-T pipelines; original and rewritten pipeline are evaluated on "
+        "and compositions of two or three (incl. in-place update_scope / update_renames on the product of a copy, join or pickle round trip) are applied to RUN-T pipelines; original and rewritten pipeline are evaluated on "
         "the same ALL-integer symbolic inputs for every output, the original must be unchanged, and a later update_defaults on either object must "
         "not affect the other. The same rewrites followed by map on MAP-T templates equal the denotation. add_mapspec_axis lifts pointwise: "
         "every dependent output gains the axis and its slice n equals the original result for p = p[n]; other outputs are unchanged. Two "
@@ -118,7 +118,7 @@ CLAIMED = {
         "candidate (S of size 1..2, I every minimal computable set of provided names - roots, interior, mixed - and each with one member removed) "
         "is decided against an independent computability/neededness reference: computable requests succeed, contain exactly the needed functions, "
         "return the composed values for ALL integers and run only needed functions; non-computable ones are rejected. On MAP-T templates "
-        "(T4, T5, T8, T12, T13, T16) listed (S, provided intermediates) choices are mapped and compared element-wise with the denotation, with "
+        "(T4, T5, T8, T12, T13, T16, and TG whose MapSpecs are generated by add_mapspec_axis) listed (S, provided intermediates) choices are mapped and compared element-wise with the denotation, with "
         "per-function call counts; a missing needed input is rejected before user code. Three recorded findings are pinned to their regions.",
         "Trusted: z3, CrossHair path exhaustion and builtin models. (S, I) candidates and axis sizes are case-split. Outside: surplus provided names, "
         "> 5 functions, scopes, parallel maps.",
